@@ -130,7 +130,7 @@ func ColumnOf(t *rapid.T, typ, real byte, opt ColumnOpt) hist.Column {
 	case refenc.TSet:
 		c.Len = rapid.IntRange(1, 8).Draw(t, "setlen")
 	}
-	if hist.IntWidth(typ) > 0 {
+	if hist.IntWidth(typ) > 0 || typ == refenc.TFloat || typ == refenc.TDouble || typ == refenc.TNewDecimal {
 		c.Unsigned = rapid.Bool().Draw(t, "unsigned")
 	}
 	c.Nullable = rapid.Bool().Draw(t, "nullable")
